@@ -20,8 +20,10 @@ theorem typeSwitch_eq (doc : Option (Bool × Bool)) : typeSwitch doc = (typeGett
 
 /-- HEADLINE (key set and key names): for every struct tree, every -tagcase, every type-level
     directive, every set of promoted accessors: the generator's JSON list is exactly the property's
-    key list, in declaration order -/
-theorem C11_keys (getset : Bool) (tc : TagCase) (doc : Option (Bool × Bool)) (promG promS : List String) (t : Tree) :
+    key list, in declaration order — unless an EXPORTED field is left out of generation (`new:"-"`), which the
+    generated code drops (finding region F_jsonSkipExported, witness below) -/
+theorem C11_keys (getset : Bool) (tc : TagCase) (doc : Option (Bool × Bool)) (promG promS : List String) (t : Tree)
+    (hse : skippedExported t = false) :
     jsonKeys getset tc (typeSwitch doc) promG promS (flatten t) = specKeys getset tc doc promG promS t := by
   unfold jsonKeys specKeys
   rw [flatten_filterMap_leaves, typeSwitch_eq]
@@ -30,7 +32,15 @@ theorem C11_keys (getset : Bool) (tc : TagCase) (doc : Option (Bool × Bool)) (p
   have hag := shadow_agrees t l hl
   rw [hag]
   by_cases hs : l.info.skip
-  · simp [hs]
+  · -- left out: no key in the generator's list; the property wants one only for an exported field, excluded here
+    cases hg : goShadowed t l.depth l.info.name
+    · have hne : isExportedName l.info.name = false := by
+        unfold skippedExported at hse
+        rw [List.any_eq_false] at hse
+        have := hse l hl
+        simpa [hs, hg] using this
+      simp [hs, hg, hne]
+    · simp [hs, hg]
   · cases hg : goShadowed t l.depth l.info.name
     · simp only [hs, Bool.or_false, Bool.false_eq_true, ↓reduceIte, mkField]
       have hown : isExportedName l.info.name = false →
@@ -185,6 +195,15 @@ example :
     (allocScan [] (flatten t)).map (fun e => (e.1.name, e.2)) =
       [("Source", []), ("id", [["Header", "Trace"]]), ("Version", []), ("body", [])] ∧
     allocMapOf (flatten t) "Version" = [] ∧ allocMapOf (flatten t) "id" = [["Header", "Trace"]] := by
+  decide
+
+/-- finding region F_jsonSkipExported (known_findings.d/C11.json): an exported field tagged `new:"-"` gets no key in the
+    generated MarshalJSON (and is not read by UnmarshalJSON), although it is an exported field -/
+theorem C11_F_jsonSkipExported_witness :
+    let t : Tree := .field { name := "Name" } (.field { name := "Secret", skip := true } (.field { name := "age" } .nil))
+    skippedExported t = true ∧
+    (jsonKeys true .camel (true, true) [] [] (flatten t)).map (·.key) = ["name", "age"] ∧
+    (specKeys true .camel none [] [] t).map (·.key) = ["name", "secret", "age"] := by
   decide
 
 /-! non-vacuity: embedded struct with a shadowed field, an explicit tag, a get-only field -/
